@@ -180,6 +180,7 @@ class Report:
         self.violations = []     # (key, what, replay dict)
         self.known_hit = []
         self.inconclusive = []
+        shutil.rmtree(os.path.join(VERIF, 'replays', pid), ignore_errors=True)
         self.known = [k for k in load_known() if k.get('property') == pid and k.get('status', 'open') == 'open']
 
     def violation(self, key, what, replay):
@@ -205,7 +206,7 @@ class Report:
         paths = []
         for n, (key, what, replay) in enumerate(self.violations):
             os.makedirs(rdir, exist_ok=True)
-            safe = re.sub(r'[^A-Za-z0-9_.-]+', '_', key)[:120]
+            safe = re.sub(r'[^A-Za-z0-9_.-]+', '_', key)[:100] + '_' + hashlib.sha1(key.encode()).hexdigest()[:8]
             p = os.path.join(rdir, safe + '.json')
             json.dump(dict(property=self.pid, key=key, what=what, replay=replay), open(p, 'w'), indent=1)
             paths.append(p)
